@@ -413,7 +413,11 @@ namespace vf_stack
             if (!(s.top() == m.m))
                 viol("C06", key("C06", "top-after-unwind"), "top() after unwind(m) does not compare equal to m");
             u.src->check();
-            frg.check("unwind");
+            {
+                // a valid unwind that the library reports as invalid (the default handler ends the program) did not restore anything
+                also_scope reported("C06", "C16");
+                frg.check("unwind");
+            }
             if (u.src->releases() != rel0)
                 viol("C06", key("C06", "unwind-released-upstream"), "unwind returned %ld blocks to the block source instead of keeping them for reuse",
                      u.src->releases() - rel0);
@@ -443,6 +447,8 @@ namespace vf_stack
             count_ev("unwinds");
             if (!expect.empty() && !m.no_replay && r.chance(70))
             {
+                // "behaves as it did when m was taken": what the capacity / block-source oracles find during the replay is C06's too
+                also_scope replaying("C06", "C01 C05 C18");
                 op("replay %zu requests", expect.size());
                 for (auto& e : expect)
                 {
